@@ -72,7 +72,7 @@ func drawYamlFile(t *rapid.T, label, ruleID, ext string) (C13File, string) {
 			first = false
 			sep := " "
 			if !numbered && chance(t, 10, label+"-sep") {
-				sep = "  "
+				sep = pick(t, []string{"  ", "\t", " \t"}, label+"-sepkind")
 			}
 			text := ind + key + ":" + sep + val
 			if val == "" {
